@@ -689,6 +689,49 @@ fn c14_late_iterator(raw: &Raw) -> Scenario {
     b.finish()
 }
 
+/// A consumer that stays away from `next()` for longer than `stop()`'s internal 3 s wait while
+/// pairs are outstanding (the iterator's hand-over channel holds one pair, the reducer thread is
+/// blocked on the next): when it comes back it must still be handed every remaining pair, then
+/// None. Real threads only - the schedule-controlled runtime has no time-outs. The verdict is about
+/// what the iterator yields, never about how long anything took.
+fn c14_paused_consumer(i: usize) -> Scenario {
+    let mut b = ScnB::new();
+    let n = 4 + i % 5;
+    let take = 1 + (i / 5) % 2;
+    let ms = [3600u16, 4500][(i / 10) % 2];
+    let s = b.store("c14", 16, Pol::Block, CTORS[i % 3].clone());
+    let reds = vec![b.reducer(s)];
+    let d = b.sub(SubKind::Direct);
+    b.s.prelude.push(Op::Subscribe { store: s, sub: d });
+    let ready = b.gate();
+    let paused = b.gate();
+    let ct = b.thread();
+    let it = b.iter_id();
+    b.s.threads[ct].push(Op::IterOpen { store: s, it, ready: Some(ready) });
+    b.s.threads[ct].push(Op::IterTake { it, k: take as u32 });
+    b.s.threads[ct].push(Op::GateSignal { gate: paused });
+    b.s.threads[ct].push(Op::Stall(Stall::Ms(ms)));
+    b.s.threads[ct].push(Op::IterDrain { it });
+    let pt = b.thread();
+    b.s.threads[pt].push(Op::GateAwait { gate: ready, entered: 1 });
+    for j in 0..n {
+        let r = RawOp { k: (i * 7 + j * 3) as u16, a: j as u16, b: (i + j) as u16, c: 0 };
+        let o = ActOpts { reducers: &reds, middlewares: &[], effects: false, followups: false, veto: false, keeps: false, panics: false };
+        let a = scripted_action(&mut b, s, &r, &o);
+        b.s.threads[pt].push(Op::Dispatch { act: a, via: VIAS[(i + j) % 3] });
+    }
+    let st = b.thread();
+    b.s.threads[st].push(Op::GateAwait { gate: paused, entered: 1 });
+    b.s.threads[st].push(Op::Stop { store: s, via_trait: i % 2 == 1 });
+    b.s.long_waits = true;
+    b.finish()
+}
+
+pub fn c14_enumerate(tier: Tier, sched: bool) -> EnumSpec {
+    let n = if sched { 0 } else if tier == Tier::Thorough { 20 } else { 6 };
+    EnumSpec { n, make: Box::new(c14_paused_consumer), exhaustive: false }
+}
+
 pub fn c14_build(raw: &Raw, _tier: Tier, _sched: bool) -> Scenario {
     if (knob(raw, 0) >> 4) % 8 == 0 {
         return c14_late_iterator(raw);
@@ -789,8 +832,17 @@ pub fn c14_check(scn: &Scenario, h: &History) -> Outcome {
     for f in p.findings.iter().filter(|f| f.kind == Kind::Notify) {
         out.viol(format!("[Notify] @{}: {}", f.pos, f.msg));
     }
+    if scn.long_waits {
+        out.class("paused-consumer");
+        let stop_was_slow = h.slow.iter().any(|(th, ix, _)| matches!(d.op(*th, *ix), Some(Op::Stop { .. })));
+        if stop_was_slow {
+            out.class("paused-consumer-and-stop-waited-2.5s-or-more");
+        }
+    }
     let iters: Vec<(u32, Consume)> = scn.threads.iter().flatten().filter_map(|o| match o {
         Op::Iter { it, consume, .. } => Some((*it, *consume)),
+        // the paused consumer: opened, partly read, left alone, then drained
+        Op::IterOpen { it, .. } => Some((*it, Consume::UntilNone)),
         _ => None,
     }).collect();
     for (it, consume) in iters {
@@ -893,14 +945,14 @@ pub fn c14_check(scn: &Scenario, h: &History) -> Outcome {
 
 pub static C14: Profile = Profile {
     id: "C14",
-    rule: "proptest scenarios: a store with any policy (two thirds BlockOnFull), a whole-run direct subscriber D registered first, 0-2 actions dispatched before the iterator exists, 1-3 producers (half of the cases wait until iter() has returned), a consumer thread that creates the iterator and either runs it to None (+ two more next()) or takes k items and drops it, sometimes a second dropping consumer, and a stopper thread that stops the store at a generated point; an eighth of the cases instead obtain the iterator from a store that never had a subscriber and has already been closed / stopped. Oracle O-ITER: items are a gap-free, repeat-free window of D's (state,action) stream, contain every notifying action dispatched after iter() returned, reach the end of D's stream when run to None, None thrice; after a drop the store keeps processing and stop() completes (deadlock = violation). Non-trivial = the consumer received >= 2 items while producers were still dispatching and the stop (or drop) came mid-stream; distinct by scenario hash.",
+    rule: "proptest scenarios: a store with any policy (two thirds BlockOnFull), a whole-run direct subscriber D registered first, 0-2 actions dispatched before the iterator exists, 1-3 producers (half of the cases wait until iter() has returned), a consumer thread that creates the iterator and either runs it to None (+ two more next()) or takes k items and drops it, sometimes a second dropping consumer, and a stopper thread that stops the store at a generated point; an eighth of the cases instead obtain the iterator from a store that never had a subscriber and has already been closed / stopped; real threads only: 6 (thorough: 20) enumerated scenarios in which the consumer takes 1-2 pairs and then stays away for 3.6 / 4.5 s - longer than stop()'s internal 3 s wait - while stop() is called with 3-7 pairs outstanding, then drains. Oracle O-ITER: items are a gap-free, repeat-free window of D's (state,action) stream, contain every notifying action dispatched after iter() returned, reach the end of D's stream when run to None, None thrice; after a drop the store keeps processing and stop() completes (deadlock = violation). Non-trivial = the consumer received >= 2 items while producers were still dispatching and the stop (or drop) came mid-stream; distinct by scenario hash.",
     raw: raw3,
     build: c14_build,
     check: c14_check,
     budget: Budget { r_cases: (3000, 20000), s_cases: (4000, 10000), s_scheds: (16, 64) },
     liveness: true,
-    enumerate: None,
+    enumerate: Some(c14_enumerate),
     extra: None,
     borrow: &[],
-    assumptions: &["the reference stream is what the whole-run direct subscriber D was told (under a drop policy: the actions that survived)"],
+    assumptions: &["the reference stream is what the whole-run direct subscriber D was told (under a drop policy: the actions that survived)", "paused-consumer scenarios: operations that take seconds are expected there and are not a signal either way; what is judged is only what the iterator yields once the consumer is back"],
 };
